@@ -6,7 +6,9 @@ from __future__ import annotations
 
 import dataclasses
 import itertools
+import math
 
+from sa import magdomain as MD
 from sa import magnitude as M
 from sa import term as T
 from sa.interp import Interp
@@ -67,16 +69,34 @@ def worst_f32(repo, fi, fixed_same=None, corners=False):
         T.reset()
         model = Model()
         model.narrow_log = []
+        model.mag_log = []
         it = Interp(repo, model)
 
         def go(i, units=units):
             kw = {n: make_param(i, n, dataclasses.replace(specs[n], unit=parse_unit(u)), 'float32' if specs[n].kind == 'scalar' else None)
                   for n, u in units.items()}
+            for n, v in kw.items():  # forward magnitude domain: the range of the number stored in the chosen unit
+                rng, sc_ = RANGES.get(n), MD.unit_scale_log10(v.unit)
+                if rng is not None and sc_ is not None and specs[n].kind == 'scalar':
+                    v.mag = (math.log10(rng[0]) - sc_, math.log10(rng[1]) - sc_)
             return i.call_function(fi, [], kw)
         outs = it.run_all(go)
         n_runs += 1
         if not any(o.kind == 'return' for o in outs):
             return {'units': units, 'problem': f'kernel raises for float32 inputs: {[(o.exc_type, o.where) for o in outs][:2]}', 'where': None}, n_runs, n_products
+        # sums and differences (and whatever is computed from them): bounds of the forward magnitude domain
+        for mag, where, term, unit in model.mag_log:
+            if _is_power_product(term):
+                continue  # decided exactly from the term below
+            lo, hi = mag
+            out_lo, out_hi = lo < M.F32_MIN_NORMAL, hi > M.F32_MAX
+            n_products += 1
+            if out_lo or out_hi:
+                sev = (M.F32_MIN_NORMAL - lo) if out_lo else (hi - M.F32_MAX)
+                if worst is None or sev > worst['_sev']:
+                    worst = {'_sev': sev, 'units': units, 'value': (T.show(term)[:120] if term is not None else '?'), 'stored_in_unit': repr(unit), 'where': where,
+                             'log10_magnitude_of_nonzero_values': [round(lo, 1), round(hi, 1)], 'bound': 'forward interval arithmetic (sums: at least eps/4 of the larger lower bound)',
+                             'float32_normal_range_log10': [round(M.F32_MIN_NORMAL, 1), round(M.F32_MAX, 1)]}
         for v, where in model.narrow_log:
             if not isinstance(v.term, Rat) or v.unit is None or len(v.term.num) != 1 or len(v.term.den) != 1:
                 continue  # only power products: their magnitude interval is exact
@@ -96,3 +116,7 @@ def worst_f32(repo, fi, fixed_same=None, corners=False):
     if worst is not None:
         worst = {k: v for k, v in worst.items() if k != '_sev'}
     return worst, n_runs, n_products
+
+
+def _is_power_product(term) -> bool:
+    return isinstance(term, Rat) and len(term.num) == 1 and len(term.den) == 1
